@@ -20,6 +20,9 @@ from .engine import LVec
 
 TOL = mpf(10) ** -11
 N = 8
+REC = 5  # which element plays the single record / single object in mixed pairings (deliberately not the first)
+GRID_KINDS = ("angle", "factor", "beta", "gamma", "tol", "lonz", "lontheta", "loneta", "tt", "ttau")
+GRID_F = (1.0, 0.5, 0.75)
 
 
 class Ctx:
@@ -31,7 +34,7 @@ class Ctx:
 
 def _obj_results(op, cases, pairing):
     out = []
-    c0 = cases[0]
+    c0 = cases[REC] if len(cases) > REC else cases[0]
     for self_l, args in cases:
         if pairing == "other0":
             args = [c0[1][j] if isinstance(a, LVec) else a for j, a in enumerate(args)]
@@ -70,17 +73,32 @@ def numpy_variants(op, cases, tier):
 
     def mk(shape, strided=False, other="array", selfmode="array"):
         def build():
-            v = _np_vec(selfs, shape, strided) if selfmode == "array" else E.mat_obj(selfs[0])
+            v = _np_vec(selfs, shape, strided) if selfmode == "array" else E.mat_obj(selfs[REC])
             a = list(plain)
             for j in vecpos:
                 col = [c[1][j] for c in cases]
-                a[j] = _np_vec(col, shape, strided) if other == "array" else E.mat_obj(col[0])
+                a[j] = _np_vec(col, shape, strided) if other == "array" else E.mat_obj(col[REC])
             return v, a
         return build
 
     for name, shape in shapes:
         yield {"name": "numpy" + name, "backend": "numpy", "pairing": "paired", "build": mk(shape), "shape": shape}
     yield {"name": "numpy-strided-view", "backend": "numpy", "pairing": "paired", "build": mk((n,), True), "shape": (n,)}
+    gi = next((j for j, k in enumerate(op.args) if k in GRID_KINDS), None)
+    if gi is not None:
+        base = cases[0][1][gi]
+        kind = op.args[gi]
+        vals = [(1 + (base - 1) * f) if kind == "gamma" else base * f for f in GRID_F]
+
+        def build_grid():
+            v = _np_vec(selfs, (n, 1))
+            a = list(plain)
+            for j in vecpos:
+                a[j] = _np_vec([c[1][j] for c in cases], (n, 1))
+            a[gi] = numpy.array([float(x) for x in vals], dtype=numpy.float64)
+            return v, a
+        yield {"name": "numpy(n,1) x scalar-array(m,)", "backend": "numpy", "pairing": "grid", "build": build_grid, "shape": (n, len(vals)),
+               "grid": (gi, vals)}
     if vecpos:
         yield {"name": "numpy x object", "backend": "numpy", "pairing": "other0", "build": mk((n,), other="object"), "shape": (n,)}
         yield {"name": "object x numpy", "backend": "numpy", "pairing": "self0", "build": mk((n,), selfmode="object"), "shape": (n,)}
@@ -111,9 +129,9 @@ def awkward_variants(op, cases, tier, salt):
             if selfmode == "array":
                 v = mkarr(selfs, struct, route, extra, spelling)
             elif selfmode == "record":
-                v = mkarr(selfs, S["flat"], route, extra, spelling)[0]
+                v = mkarr(selfs, S["flat"], route, extra, spelling)[REC]
             elif selfmode == "object":
-                v = E.mat_obj(selfs[0])
+                v = E.mat_obj(selfs[REC])
             else:
                 v = _np_vec(selfs, (n,))
             a = list(plain)
@@ -122,9 +140,9 @@ def awkward_variants(op, cases, tier, salt):
                 if other == "same":
                     a[j] = mkarr(col, struct, route, False, spelling)
                 elif other == "object":
-                    a[j] = E.mat_obj(col[0])
+                    a[j] = E.mat_obj(col[REC])
                 elif other == "record":
-                    a[j] = mkarr(col, S["flat"], route, False, spelling)[0]
+                    a[j] = mkarr(col, S["flat"], route, False, spelling)[REC]
                 elif other == "numpy":
                     a[j] = _np_vec(col, (n,))
                 elif other == "flat":
@@ -141,6 +159,24 @@ def awkward_variants(op, cases, tier, salt):
             b, st = mk(sname, route, spelling=(i + k) % 3)
             yield {"name": f"awkward:{sname}:{route}", "backend": "awkward", "pairing": "paired", "build": b, "struct": st,
                    "route": route, "extra": route != "with_name"}
+    gi = next((j for j, k in enumerate(op.args) if k in GRID_KINDS), None)
+    if gi is not None:
+        base = cases[0][1][gi]
+        kind = op.args[gi]
+        per = [(1 + (base - 1) * GRID_F[i % 3]) if kind == "gamma" else base * GRID_F[i % 3] for i in range(n)]
+        struct = S["jagged"]
+
+        def build_elem():
+            import awkward as ak
+
+            v = mkarr(selfs, struct, "zip", True)
+            a = list(plain)
+            for j in vecpos:
+                a[j] = mkarr([c[1][j] for c in cases], struct, "zip", False)
+            a[gi] = ak.Array(awk.map_struct(struct, lambda i: float(per[i])))
+            return v, a
+        yield {"name": "awkward:jagged x scalar-array(same structure)", "backend": "awkward", "pairing": "perelem", "build": build_elem,
+               "struct": struct, "route": "zip", "extra": True, "perelem": (gi, per)}
     b, st = mk("jagged", "zip")
     yield {"name": "awkward:regular:zip", "backend": "awkward", "pairing": "paired",
            "build": _regular_builder(selfs, cases, plain, vecpos, n), "struct": [list(range(n // 2)), list(range(n // 2, n))],
@@ -279,9 +315,10 @@ def run(items, tier, seed, res, prop, judge_values=True, judges=(), backends=("n
             for (s_self, s_other, order) in signatures(op, dim, odim, tier, r):
                 draws = W.make_batch(op, dim, r, N, odim=odim, momentum=op.momentum_only or r.random() < 0.5)
                 cases = []
+                flip = r.random() < 0.3  # one decision per batch: every element of an array has the same flavor
                 for d in draws:
                     try:
-                        cases.append(W.instantiate(d, s_self, s_other, order, flip_momentum=(r.random() < 0.3)))
+                        cases.append(W.instantiate(d, s_self, s_other, order, flip_momentum=flip))
                     except R.NotRepresentable:
                         pass
                 if len(cases) < N:
@@ -303,9 +340,31 @@ def run(items, tier, seed, res, prop, judge_values=True, judges=(), backends=("n
                         # the axis is a secondary argument and does not decide the result backend: a lower-priority
                         # `self` cannot hold the element-wise results of a higher-priority axis array (not a documented use)
                         continue
-                    if pairing not in expected:
-                        expected[pairing] = _obj_results(op, cases, pairing)
-                    exp = expected[pairing]
+                    if pairing == "grid":
+                        gi, vals = var["grid"]
+                        exp = []
+                        for (self_l, args) in cases:
+                            for x in vals:
+                                a2 = list(args)
+                                a2[gi] = x
+                                try:
+                                    exp.append(("ok", E.eval_obj(op, self_l, a2)))
+                                except Exception as e:
+                                    exp.append(("exc", type(e).__name__, str(e)[:150]))
+                    elif pairing == "perelem":
+                        gi, per = var["perelem"]
+                        exp = []
+                        for i, (self_l, args) in enumerate(cases):
+                            a2 = list(args)
+                            a2[gi] = per[i]
+                            try:
+                                exp.append(("ok", E.eval_obj(op, self_l, a2)))
+                            except Exception as e:
+                                exp.append(("exc", type(e).__name__, str(e)[:150]))
+                    else:
+                        if pairing not in expected:
+                            expected[pairing] = _obj_results(op, cases, pairing)
+                        exp = expected[pairing]
                     try:
                         v, a = var["build"]()
                     except Exception as e:
@@ -346,8 +405,13 @@ def _judge_values(op, dim, res, prop, sig, var, cases, exp, units, gain, out, ex
         return
     try:
         if var["backend"] == "numpy":
-            got = E.canon_numpy(op, out, n)
-            rowmap = list(range(n))
+            ntot = n * len(var["grid"][1]) if "grid" in var else n
+            got = E.canon_numpy(op, out, ntot)
+            rowmap = list(range(ntot))
+            if "grid" in var:
+                m_ = len(var["grid"][1])
+                units = [units[k // m_] for k in range(ntot)]
+                cases = [cases[k // m_] for k in range(ntot)]
             shape_ok = True
             if op.result != "vec":
                 arr = numpy.asarray(out)
@@ -371,7 +435,7 @@ def _judge_values(op, dim, res, prop, sig, var, cases, exp, units, gain, out, ex
                 res.violation(f"{prop}/awkward-structure-not-preserved variant={_vclass(name)} op={op.name}",
                               {"sig": sig, "variant": name, "got": repr(skel)[:200], "expected": repr(eskel)[:200]})
                 return
-            rowmap = awk.struct_rows(struct) if not var.get("record") else [0]
+            rowmap = awk.struct_rows(struct) if not var.get("record") else [REC]
     except Exception as e:
         res.violation(f"{prop}/malformed-array-result variant={_vclass(name)} op={op.name}",
                       {"sig": sig, "variant": name, "problem": f"{type(e).__name__}: {e}"[:300]})
